@@ -133,7 +133,7 @@ def main():
     cfg = gen_config()
     res = Result(PID)
     T = tier()
-    D = 3 if T == "quick" else 4
+    D = 3 if T == "quick" else 6
     inst = []
     for kind in ("mulmm", "mulTm", "mulmT", "mulTT"):
         for r, k, c in itertools.product(range(1, D + 1), repeat=3):
